@@ -108,6 +108,56 @@ SEEDS = {
  'c19-2': dict(prop='C19', site='src/state/mod.rs State::unify / ConstraintStore::relevant',
    change='after a unification only the constraints whose operands() literally contain a variable of the extension are woken',
    needs='a plusz / timesz constraint posted while operand x is unbound, then x aliased in the direction x -> a (x == a), then a grounded: the extension only names a, the constraint is never woken'),
+ 'c05-2': dict(prop='C05', site='src/stream.rs Stream::mplus_dfs (Cons arm)',
+   change='pending alternatives are re-associated to the right after an answer, with the two operands swapped in the case where the rest is already an MPlusDFS',
+   needs='an answer produced while at least three choice points are stacked and the two enclosing ones both have non-empty alternatives: dfs { cond { cond { cond { q == 1, q == 2 }, q == 3 }, q == 4 } } gives 1, 2, 4, 3; two levels are unaffected'),
+ 'c07-2': dict(prop='C07', site='src/stream.rs StreamEngine::step (Lazy::Pause arm)',
+   change='chains of bare pauses are collapsed inside one step (the same slip as c07, found independently)',
+   needs='a silently diverging branch whose recursion passes only through wrapper goals (closure, fresh, single-goal conjunction), getting its turn before the sibling branch has delivered its answer',
+   note='one engine step never returns: reported as a hang (kind=crash) of the cases in flight'),
+ 'c09-2': dict(prop='C09', site='src/state/reification.rs enforce_constraints_fd',
+   change='hidden FD variables are labelled by one onceo per variable (each first surviving value is committed) instead of one onceo around the joint labeling',
+   needs='at least two hidden FD variables still unbound at reification, linked so that the first value of one is not refuted by propagation but leaves the others unsatisfiable (a, b, c in 1..3, d in 1..4, distinctfd([a, b, c, d])), and the domain store yielding that variable first: the answer is dropped in some hash orders'),
+ 'c11-2': dict(prop='C11', site='src/operator/project.rs Project::solve',
+   change='the projected variable is resolved with a shallow walk instead of walk_star',
+   needs='the projected variable bound to a list or compound whose inner elements / tail are variables bound separately (x == [a, b], a == 3, b == 4) and a body that inspects the inside non-relationally'),
+ 'c12-2': dict(prop='C12', site='src/operator/everyg.rs Everyg::solve',
+   change='the per-element goal generator is memoised per distinct term within one solve',
+   needs='a collection in which an equal term occurs at least twice AND a body that introduces fresh variables at goal-construction time (an inline |y| { .. }) and is non-deterministic in them: the repeated elements share their fresh variables'),
+ 'c13-2': dict(prop='C13', site='macros/src/lib.rs PatternMatchOperator::to_tokens',
+   change='pattern variables are collected once per arm as the union over all alternatives',
+   needs='an arm with >= 2 alternatives binding different name sets, a body referring to a name bound in only one of them, an outer variable of that name, and the scrutinee matching the alternative that does not mention it',
+   note='programs whose name is bound by only one alternative and unused in the body no longer compile (E0283): reported as rejected-by-macros'),
+ 'c14-2': dict(prop='C14', site='macros/src/lib.rs impl Parse for TreeTerm',
+   change='a list literal after | is spliced into the enclosing list; for an improper literal is_proper is not cleared (the same slip as c14, found independently)',
+   needs='an improper-list literal whose tail is itself an improper-list literal, [1 | [2 | x]], at any depth'),
+ 'c15-2': dict(prop='C15', site='macros/src/lib.rs PatternMatchOperator::to_tokens',
+   change='the __term__ alias of the scrutinee is kept only for a plain variable or field access; a list or literal scrutinee is built after the pattern variables are declared',
+   needs='a scrutinee that is a LIST of variables (match [l, s, ls] { .. }) and an arm whose pattern binds a variable with the same name as one of them; match l { [_ | l] => .. } on a plain variable is unaffected'),
+ 'c16-2': dict(prop='C16', site='src/relation/clpfd/minusfd.rs MinusFdConstraint::run',
+   change='the constraint re-enters the store after the three narrowing steps instead of before them',
+   needs='domains posted before minusfd and one pass that grounds all three operands through stale bounds (sparse domains with gaps: u in {0,10}, v in {0,10}, w in {3,50}), with no later == or labeling in the branch'),
+ 'c17-2': dict(prop='C17', site='src/relation/clpfd/timesfd.rs quotient_bounds',
+   change='a zero at the end of the divisor range is trimmed before dividing, without the guard that the product excludes zero',
+   needs='timesfd run while its factors are domain variables, one factor whose domain has 0 as min or max (not {0}), a product domain containing 0, and the other factor with values larger than product / non-zero divisor: (4, 0, 0) lost for x in 0..=5, y in 0..=2, z in 0..=3'),
+ 'c18-2': dict(prop='C18', site='src/state/fd.rs impl From<Vec<isize>> for FiniteDomain',
+   change='sort + dedup only when !is_sorted(): an ascending vector with repeats keeps them',
+   needs='a sparse domain built from an already ascending vector or slice with a repeated value ([1, 1, 2], [3, 3]); unsorted inputs with repeats are unaffected'),
+ 'c20-2': dict(prop='C20', site='src/state/unification.rs unify_rec_compound',
+   change='children unified through zip (the same slip as c20, found independently)',
+   needs='an Option<_> field inside a #[compound] struct holding Some(..) on one side and None on the other, all earlier fields unifying'),
+ 'c21-2': dict(prop='C21', site='src/lterm.rs impl PartialEq for LTerm (Cons, Cons)',
+   change='self.iter().eq(other.iter()) (the same slip as c21, found independently)',
+   needs='a proper list compared with an improper list that flattens to the same sequence ([1, 2, 3] vs [1, 2 | 3])'),
+ 'c22-2': dict(prop='C22', site='src/state/mod.rs State::with_constraint + ConstraintStore::is_redundant',
+   change='early return when the new constraint is redundant, after the with_constraint hook has run and before push_and_normalize (whose dropped list feeds take_constraint)',
+   needs='a User type with the hooks and a tree disequality posted while the store already holds one that subsumes it (x != 1 then [x, y] != [1, 2], or the same disequality twice); the reverse order is balanced'),
+ 'c23-2': dict(prop='C23', site='src/state/mod.rs State::process_extension_fd',
+   change='fast path: when the bound-to term is a variable without a domain the domain is inserted under it directly, without walking it',
+   needs='ONE unification that binds variables in a chain a -> b -> c ([a, b] == [b, c]) where a has a non-singleton domain and b, c none, with an FD constraint on the class still in the store at labeling: verify_all_bound panics; two separate unifications do not trigger it'),
+ 'c24-2': dict(prop='C24', site='src/relation/distinct.rs',
+   change='distinct rewritten through a helper differs_from_all whose recursion passes the list head instead of x: only adjacent elements are compared',
+   needs='a list of length >= 3 with equal elements that are never adjacent: distinct([1, 2, 1]) succeeds; adjacent duplicates and lengths <= 2 behave as before'),
 }
 
 
